@@ -203,6 +203,13 @@ class Device:
                 f["access"] = own
             fields[fname] = f
         d["Fld"] = {"type": "register", "access": "RW", "address": addr, "size_bits": 32, "fields": fields}
+        # the position of the `config` entry among the top-level keys is free: first, in the middle or last
+        pos = sum(map(ord, self.mod)) % 3
+        if pos:
+            items = [(k, v) for k, v in d.items() if k != "config"]
+            at = len(items) if pos == 2 else len(items) // 2
+            items.insert(at, ("config", cfg))
+            d = dict(items)
         return d
 
     @property
